@@ -12,7 +12,7 @@ HARNESS = ["auth/api/iam/zz_verif_c02_test.go", "storage/zz_verif_c02_export.go"
 
 REQUIRED = [
     "s2s_token_only_if", "s2s_defect_combination_rejected", "claims_cannot_override", "claims_cannot_override_today",
-    "authorize_request_only_if", "authorize_response_only_if", "code_token_only_if", "code_redeemed_at_most_once", "nonce_covers_window",
+    "authorize_request_only_if", "authorize_response_only_if", "authresp_nonce_at_most_once", "race_at_most_one_accepted", "code_token_only_if", "code_redeemed_at_most_once", "nonce_covers_window",
     "nonce_covers_window_today", "s2s_nonce_store_fault_fails_closed", "introspect_active_only_if_issued", "introspect_faithful",
     "introspect_depends_on_token_store_only", "s2s_all_required_definitions_fulfilled_false", "plain_introspection_members",
     "fact_s2s_chain", "fact_code_token_chain", "fact_authorize_response_chain", "fact_introspect_chain",
@@ -321,6 +321,17 @@ class Oracle:
             self.sessions[op["state"]] = {"spec": op["session"], "t": op["t"], "fulfilled": [], "nonces": {op["nonce"]: op["t"]}, "i": i}
         elif kind == "authresp":
             self.judge_authresp(i, op, line)
+        elif kind == "race":
+            # two overlapping posts of ONE presentation / nonce under a forced schedule: at most one may be accepted
+            m = re.match(r"race A\[(.*)\] B\[(.*)\]$", line)
+            outs = list(m.groups()) if m else []
+            accepted = [o for o in outs if o.startswith("200 ")]
+            if len(accepted) > 1:
+                self.bad("authorization-response-accepted-twice-for-one-nonce",
+                         f"op {i}: schedule {op.get('schedule')} (steps {op.get('trace')}): both overlapping posts of the same presentation were accepted: {outs}", [i])
+            order = outs if (op.get("schedule") or [0])[0] == 0 else outs[::-1]
+            for o in order:
+                self.judge_authresp(i, op, o)
         elif kind == "code":
             self.judge_code(i, op, line)
 
@@ -360,7 +371,7 @@ def run(ctx):
         "6c1cde3 (credential-less presentation reset the expected subject). Open: s2s grant fulfils one of two configured definitions.",
         "not covered: the real verifier (VerifyVP is scripted; C01), JWT presentations get the JSON-LD window rule from the stub (wider than the real nbf/exp check), "
         "the authorization-request leg (sessions are seeded into the real stores the way handleAuthorizeRequestFromHolder stores them), Redis/memcached session stores, "
-        "concurrent requests (C05), HTTP routing/binding of the generated server wrapper (handlers are called through the StrictServerInterface methods), "
+        "concurrent requests other than two overlapping posts of one authorization response (C05), HTTP routing/binding of the generated server wrapper (handlers are called through the StrictServerInterface methods), "
         "legacy v1 auth/services/oauth/authz_server.go (JWT-bearer grant of the n2n flow) is outside the model",
     ]
     if facts is None:
@@ -414,7 +425,7 @@ def run(ctx):
         a, b = world_of(idx[0])
         # replay = the world's configuration + every state-changing op up to the last op involved (time advances included)
         keep = [a] + [k for k in range(a + 1, idx[-1] + 1)
-                      if k in idx or ops[k].get("op") in ("advance", "seed", "authresp", "authreq") or (ops[k].get("op") in ("s2s", "code") and impl[k].startswith("200"))]
+                      if k in idx or ops[k].get("op") in ("advance", "seed", "authresp", "authreq", "race") or (ops[k].get("op") in ("s2s", "code") and impl[k].startswith("200"))]
         replay = "\n".join(clean(ops[k]) for k in keep) + "\n"
         if ctx.violation(sig, text, re.sub(r"[^A-Za-z0-9_.-]+", "_", sig.split(":", 1)[1])[:80] + ".jsonl", replay):
             new_sigs.append(sig)
